@@ -103,9 +103,9 @@ theorem sB_applyCmds_out (j : Job) (cl : Cluster) (l : List Cmd) (e : Env) :
     rw [h1, sB_applyCmd_out]
     omega
 
-theorem sB_actCmds_io (a : Asg) (prep : List (Ds × Host)) : ((actCmds a prep).map sB_cmdIO).sum ≤ prep.length := by
+theorem sB_actCmds_io (j : Job) (a : Asg) (prep : List (Ds × Host)) : ((actCmds j a prep).map sB_cmdIO).sum ≤ prep.length := by
   have key : ∀ (l : List (Ds × Host)),
-      ((l.map (fun p => Cmd.transmit p.1 p.2 a.worker.host) ++ [Cmd.taskSeq a.worker a.task]).map sB_cmdIO).sum = l.length := by
+      ((l.map (fun p => Cmd.transmit p.1 p.2 a.worker.host) ++ [Cmd.taskSeq a.worker a.task (asgOutputs j a.task)]).map sB_cmdIO).sum = l.length := by
     intro l
     induction l with
     | nil => simp [sB_cmdIO]
